@@ -16,6 +16,7 @@ from ..ctx import C, JS, M, RD, XM, Ctx, call_name, calls_in, walk_function
 from ..fold import ClassRef, Ext, ExtCall, FuncRef, NS, QN, is_unknown
 from ..loader import AnalysisError, dotted, norm
 from ..mutation import resolve_local
+from .paths import short
 from ..report import Rule, RuleResult
 from .tables import result_kind, rule as _rule_deco_unused  # noqa: F401
 
@@ -825,10 +826,13 @@ def provn_arm_datatype(ctx: Ctx, q, arm: Arm):
                 s = n.value
                 is_percent_format = any(isinstance(p, ast.BinOp) and isinstance(p.op, ast.Mod) and p.left is n for p in ast.walk(e))
                 if is_percent_format:
-                    s = s.replace("%%", "%")
+                    s = s.replace("%%", "%")  # what the % operator leaves of each escaped percent sign
                 elif isinstance(e, ast.Call) and call_name(e) == "format":
                     pass
-                return s.split("%%")[-1].strip() if "%%" in s else s.split("%")[-1].strip()
+                # the text that is printed must separate value and datatype with the two-character token %%
+                if "%%" not in s:
+                    return "<separator %r instead of %%%%>" % s[s.find("%"):][:12]
+                return s.split("%%")[-1].strip()
     return None
 
 
@@ -871,6 +875,28 @@ def c06_r5(ctx: Ctx, rule):
     res.ob("ProvRecord.get_provn: provn_representation first (%s), encoding_provn_value as fallback (%s)" % (uses_rep, uses_enc))
     if not (uses_rep and uses_enc):
         res.fail(rule.id, "provn-kind::record-printer-dispatch", ctx.loc(rq, rf.node), "ProvRecord.get_provn no longer dispatches between provn_representation and encoding_provn_value")
+    # when the choice is made by an isinstance test (instead of trying the method), the test admits every class that has the method
+    havers = [c for c in ("prov.model.Literal", "prov.identifier.Identifier", "prov.identifier.QualifiedName") if ctx.p.lookup_method(c, "provn_representation")]
+    for q2 in cl:
+        f2 = ctx.fn(q2)
+        for n in walk_function(f2.node):
+            if isinstance(n, (ast.If, ast.IfExp)) and isinstance(n.test, ast.Call) and call_name(n.test) == "isinstance" and len(n.test.args) == 2:
+                body = n.body if isinstance(n.body, list) else [n.body]
+                if not any(isinstance(c, ast.Call) and call_name(c) == "provn_representation" for b in body for c in ast.walk(b)):
+                    continue
+                cls_e = n.test.args[1]
+                elts = cls_e.elts if isinstance(cls_e, ast.Tuple) else [cls_e]
+                admitted = set()
+                for e in elts:
+                    r = ctx.p.resolve_dotted(f2.module, e)
+                    if r and r[0] == "class":
+                        admitted.add(r[1])
+                missing = [h for h in havers if not any(a in ctx.p.mro(h) for a in admitted)]
+                res.ob("%s chooses provn_representation by `%s`: admits every class defining it: %s" % (short(q2), norm(n.test)[:60], not missing))
+                for h in missing:
+                    res.fail(rule.id, "provn-kind::%s::not-admitted" % h.rsplit(".", 1)[1], ctx.loc(q2, n.test),
+                             "%s has its own provn_representation but `%s` does not admit it: it falls through to str()" % (h.rsplit(".", 1)[1], norm(n.test)[:60]),
+                             "an xsd:anyURI value is printed bare (ex:homepage=http://example.org/home) instead of \"...\" %% xsd:anyURI")
     return res
 
 
